@@ -43,7 +43,11 @@ class _CommonVisitors(visitor.NodeVisitor):
 
     def visit_Integer(self, node: ast.Integer) -> BindParameter:
         ":meta private:"
-        return literal(node.py_val)
+        try:
+            return literal(node.py_val)
+        except ValueError:
+            # E.g. more digits than Python converts (`sys.set_int_max_str_digits`)
+            raise ex.ValueException(node.val)
 
     def visit_Float(self, node: ast.Float) -> BindParameter:
         ":meta private:"
@@ -83,7 +87,11 @@ class _CommonVisitors(visitor.NodeVisitor):
 
     def visit_Duration(self, node: ast.Duration) -> BindParameter:
         ":meta private:"
-        return literal(node.py_val)
+        try:
+            return literal(node.py_val)
+        except (ValueError, OverflowError):
+            # E.g. `duration'P1000000000D'` is more than a `timedelta` can hold
+            raise ex.ValueException(node.val)
 
     def visit_GUID(self, node: ast.GUID) -> BindParameter:
         ":meta private:"
